@@ -15,6 +15,7 @@ PROPS = {
     "C05": P(),
     "C06": P(),
     "C20": P(),
+    "C07": P(level="fault_enumeration"),
     "C08": P(gomaxprocs=[1, 2, 4, 4]),
     "C09": P(gomaxprocs=[1, 2, 4, 4]),
     "C12": P(),
